@@ -286,8 +286,20 @@ def rule_contract_arith(ctx):
     ctx.rule(R, "successor / sum of block, view and epoch numbers in the network crate: next() is checked_add(1).unwrap() and `+` is overflow-checked, safe only for numbers of verified, locally stored blocks (the reviewed reason of those panic sites). Every call site in the network crate is one of the reviewed ones, whose operand is local store state - never a value a peer announced or sent (a BlockStoreState with last = u64::MAX passes BlockStoreState::verify)")
     from engine.terms import show
     found = {}
+    # the methods of the announced-state types (BlockStoreState, Last) that the network crate calls are evaluated on what a
+    # peer announced (`available.contains(n)`, `state.verify()`): they belong to the same census
+    G = ctx.cg
+    announced = set()
+    for g in ctx.F.fns:
+        if g.in_testonly() or not g.qname.startswith(("zksync_consensus_engine::block_store::BlockStoreState::", "zksync_consensus_engine::block_store::Last::")) or g.qname.endswith(CONTRACT_ARITH):
+            continue
+        if any(c.crate == "zksync_consensus_network" and not c.in_testonly() and "loadtest" not in c.qname for c in G.callers_of(g)):
+            announced.add(g)
     for f in ctx.F.fns:
-        if f.in_testonly() or f.crate != "zksync_consensus_network" or "loadtest" in f.qname or "::testonly" in f.qname:
+        r0 = f
+        while r0.parent is not None:
+            r0 = r0.parent
+        if f.in_testonly() or (f.crate != "zksync_consensus_network" and r0 not in announced) or "loadtest" in f.qname or "::testonly" in f.qname:
             continue
         T = ctx.T(f)
         r = f
@@ -320,6 +332,7 @@ def rule_contract_arith(ctx):
             f, c, arg = sites[0]
             ctx.ob(R, "%s in %s" % (name, rq.split("::", 1)[1]), False, "%s is applied to %s in %s: it panics (aborts the node) at u64::MAX, and this site is not among the reviewed ones whose operand is local store state - a peer-chosen number reaches it" % (name, arg, rq.split("::", 1)[1]), f.loc(c["t"].get("ln")))
     ctx.floor(R, "successor sites inventoried", len(found), 1)
+    ctx.floor(R, "announced-state methods called by the network crate", len(announced), 2)
 
 
 RULES += [("C10.6", rule_contract_arith)]
